@@ -666,7 +666,7 @@ def get_value(node):
     elif isinstance(node, UnaryOp) and isinstance(
         node.operand, (Str, Num, Constant, NameConstant)
     ):
-        return {"USub": neg, "UAdd": pos, "not_": not_, "Invert": inv}[
+        return {"USub": neg, "UAdd": pos, "Not": not_, "Invert": inv}[
             type(node.op).__name__
         ](get_value(node.operand))
     elif isinstance(node, Name):
